@@ -157,7 +157,7 @@ TRun ==
   /\ LET e == Ev
          rt == IF "roots" \in DOMAIN e THEN SetRoots(FsOfEvent(e), NoRoot, e.roots) ELSE Ok(RootAt(e.root))
          r == IF ~rt.ok THEN rt ELSE RunLayers(FsOfEvent(e), rt.v, e.inputs, e.skip, EnvOf(e))
-         j == IF ~r.ok /\ r.err = "undef" THEN "undef"
+         j == IF ~r.ok /\ r.err \in {"undef", "need"} THEN "undef"   \* "need": a byte-level codec, not supplied on this route
               ELSE IF r.ok /\ ~e.ok THEN "spec evaluates, code failed"
               ELSE IF ~r.ok /\ e.ok THEN "spec fails (" \o r.err \o "), code evaluated"
               ELSE IF r.ok /\ r.v.outs # e.outs THEN "outputs differ"
@@ -288,7 +288,7 @@ TREnd ==
   /\ IF rs.status = "lost" THEN UNCHANGED <<bad, nchk, nundef>>
      ELSE IF rs.status = "run" THEN Verdict("the program stopped while the specification still has steps to take (next: " \o NextLabel(rs).kind \o " " \o NextLabel(rs).id \o ")")
      ELSE LET r == IF rs.status = "done" THEN EvalAll(rs.docs, <<>>) ELSE Err("resolve") IN
-          Verdict(IF ~r.ok /\ r.err = "undef" THEN "undef"
+          Verdict(IF ~r.ok /\ r.err \in {"undef", "need"} THEN "undef"
                   ELSE IF r.ok /\ ~Ev.ok THEN "spec evaluates, code failed"
                   ELSE IF ~r.ok /\ Ev.ok THEN "spec fails (" \o r.err \o "), code evaluated"
                   ELSE IF r.ok /\ r.v # Ev.outs THEN "outputs differ"
